@@ -21,7 +21,7 @@ R.untype("K")
 R.untype("V")
 R.record("_Entry", {"ts": "float", "value": "Un[V]"})
 R.funtype("ClockFn", params=[], returns="float", ensures=[("reads-now", "result == now")])
-R.objtype("NsCache", {"_max": "int", "_ttl": "int", "_time": "ClockFn", "_d": "OrderedDict[Un[K], _Entry]"},
+R.objtype("_NamespaceCache", {"_max": "int", "_ttl": "int", "_time": "ClockFn", "_d": "OrderedDict[Un[K], _Entry]"},
           cls=("clematis/engine/cache.py", "_NamespaceCache"))
 
 GHOST_NOW = {"now": ("float", "any")}
@@ -32,7 +32,7 @@ N1 = "(old(len(self._d)) + ite(old(key in self._d), 0, 1))"      # size right af
 # ------------------------------------------------------------------ _evict_over_cap
 R.contract(
     NS + "_evict_over_cap", "C15",
-    types={"self": "NsCache"},
+    types={"self": "_NamespaceCache"},
     returns="int",
     # no precondition: a negative capacity (rejected by the config validator) is covered by the exceptional clause
     raises={"KeyError": "self._max < 0"},
@@ -59,7 +59,7 @@ R.contract(
 # ------------------------------------------------------------------ get
 R.contract(
     NS + "get", "C15",
-    types={"self": "NsCache", "key": "Un[K]"},
+    types={"self": "_NamespaceCache", "key": "Un[K]"},
     returns="Tuple[bool, Optional[Un[V]]]",
     ghost=GHOST_NOW,
     ensures=[
@@ -87,7 +87,7 @@ R.contract(
 # ------------------------------------------------------------------ set
 R.contract(
     NS + "set", "C15",
-    types={"self": "NsCache", "key": "Un[K]", "value": "Un[V]"},
+    types={"self": "_NamespaceCache", "key": "Un[K]", "value": "Un[V]"},
     returns="int",
     ghost=GHOST_NOW,
     raises={"KeyError": "self._max < 0"},
@@ -122,7 +122,7 @@ R.contract(
 # ------------------------------------------------------------------ invalidate / size / items
 R.contract(
     NS + "invalidate", "C15",
-    types={"self": "NsCache"},
+    types={"self": "_NamespaceCache"},
     returns="int",
     ensures=[("count-exact", "result == old(len(self._d))"), ("emptied", "len(self._d) == 0"),
              ("inv-preserved", "implies(old(wf_nscache(self)), wf_nscache(self))"), FRAME_CFG],
@@ -132,7 +132,7 @@ R.contract(
 
 R.contract(
     NS + "size", "C15",
-    types={"self": "NsCache"},
+    types={"self": "_NamespaceCache"},
     returns="int",
     ensures=[("exact", "result == len(self._d)"),
              ("within-cap", "implies(wf_nscache(self), result <= self._max)"),
@@ -142,7 +142,7 @@ R.contract(
 
 R.contract(
     NS + "items", "C15",
-    types={"self": "NsCache"},
+    types={"self": "_NamespaceCache"},
     returns="List[Tuple[Un[K], Un[V]]]",
     ensures=[("lists-all-oldest-first",
               "len(result) == len(self._d) and "
@@ -154,7 +154,7 @@ R.contract(
 
 R.contract(
     NS + "__init__", "C15", callee=False,     # constructors are interpreted inline by their callers
-    types={"self": "NsCache", "max_entries": "int", "ttl_sec": "int", "time_fn": "ClockFn"},
+    types={"self": "_NamespaceCache", "max_entries": "int", "ttl_sec": "int", "time_fn": "ClockFn"},
     ensures=[("starts-empty", "len(self._d) == 0"),
              ("config-stored", "self._max == max_entries and self._ttl == ttl_sec"),
              ("inv-established", "implies(max_entries >= 0, wf_nscache(self))")],
@@ -232,7 +232,7 @@ R.contract(
 
 # ------------------------------------------------------------------ LRUCache (shim over one _NamespaceCache)
 LC = CACHE + "LRUCache."
-R.objtype("LRUCacheT", {"_ns": "NsCache", "_hits": "int", "_misses": "int", "_evicted": "int"},
+R.objtype("LRUCacheT", {"_ns": "_NamespaceCache", "_hits": "int", "_misses": "int", "_evicted": "int"},
           cls=("clematis/engine/cache.py", "LRUCache"))
 P1 = "self._ns"
 H1 = hit_expr(P1)
@@ -365,4 +365,320 @@ R.contract(
     ],
     raises="none",
 )
+
+# ------------------------------------------------------------------ CacheManager
+# `_ns: Dict[str, _NamespaceCache]` is a dict of heap objects, which the engine cannot encode as a symbolic map.
+# The manager is therefore verified for fixed namespace-dict shapes (a dict with fixed string keys): two existing
+# namespaces 'ns:a' (the one operated on) and 'ns:b' (a bystander that must stay untouched), and the case where the
+# requested namespace 'ns:new' does not exist yet.  The namespace *contents*, capacities, TTLs and the clock are fully
+# symbolic.  Not covered: an unbounded number of namespaces (the per-namespace code path does not depend on it).
+CM = CACHE + "CacheManager."
+R.dictrec("NsMapAB", {"ns:a": "_NamespaceCache", "ns:b": "_NamespaceCache"})
+R.objtype("CacheMgrT", {"_max": "int", "_ttl": "int", "_time": "ClockFn", "_ns": "NsMapAB",
+                        "_hits": "int", "_misses": "int", "_evicted": "int"},
+          cls=("clematis/engine/cache.py", "CacheManager"))
+PA, PB = "self._ns['ns:a']", "self._ns['ns:b']"
+WFAB = [("wf", "wf_nscache(%s) and wf_nscache(%s)" % (PA, PB))]
+OTHER_UNTOUCHED = ("other-namespace-untouched",
+                   "same_omap(%s._d, old(%s._d)) and %s._max == old(%s._max) and %s._ttl == old(%s._ttl)" % ((PB,) * 6))
+HA = hit_expr(PA)
+
+R.contract(
+    CM + "get", "C15",
+    types={"self": "CacheMgrT", "namespace": "='ns:a'", "key": "Un[K]"},
+    returns="Tuple[bool, Optional[Un[V]]]",
+    ghost=GHOST_NOW,
+    requires=WFAB,
+    ensures=[("hit-iff-present-and-fresh", "result[0] == " + HA),
+             ("hit-value", "implies(" + HA + ", result[1] == old(%s._d)[key].value)" % PA),
+             ("miss-none", "implies(not result[0], is_none(result[1]))"),
+             OTHER_UNTOUCHED] + lookup_clauses(PA),
+    raises="none",
+)
+R.contract(
+    CM + "set", "C15",
+    types={"self": "CacheMgrT", "namespace": "='ns:a'", "key": "Un[K]", "value": "Un[V]"},
+    ghost=GHOST_NOW,
+    requires=WFAB,
+    ensures=[OTHER_UNTOUCHED] + store_clauses(PA),
+    raises="none",
+)
+R.contract(
+    CM + "invalidate_namespace", "C15",
+    types={"self": "CacheMgrT", "namespace": "='ns:a'"},
+    returns="int",
+    ensures=[("empties-that-namespace", "len(%s._d) == 0 and result == old(len(%s._d))" % (PA, PA)),
+             OTHER_UNTOUCHED, counters_same(), frame_cfg(PA)],
+    raises="none",
+    unreachable_ok=["return 0"],    # this variant fixes an existing namespace (the other arm: next contract)
+)
+R.contract(
+    CM + "invalidate_namespace", "C15", name="CacheManager.invalidate_namespace[unknown namespace]", callee=False,
+    types={"self": "CacheMgrT", "namespace": "='ns:zzz'"},
+    returns="int",
+    ensures=[("nothing-removed", "result == 0"),
+             ("all-namespaces-untouched", "same_omap(%s._d, old(%s._d)) and same_omap(%s._d, old(%s._d))" % (PA, PA, PB, PB)),
+             ("no-namespace-created", "len(self._ns) == 2"), counters_same()],
+    raises="none",
+    unreachable_ok=["return ns.invalidate()"],    # this variant fixes a namespace that does not exist
+)
+R.contract(
+    CM + "invalidate_all", "C15",
+    types={"self": "CacheMgrT"},
+    returns="int",
+    mode="bounded", name="CacheManager.invalidate_all (bounded: two namespaces)",
+    ensures=[("empties-every-namespace", "len(%s._d) == 0 and len(%s._d) == 0" % (PA, PB)),
+             ("count-exact", "result == old(len(%s._d)) + old(len(%s._d))" % (PA, PB)), counters_same()],
+    raises="none",
+)
+R.contract(
+    CM + "stats", "C15",
+    types={"self": "CacheMgrT"},
+    mode="bounded", name="CacheManager.stats (bounded: two namespaces)",
+    ensures=[("reports-counters", "result['hits'] == self._hits and result['misses'] == self._misses and "
+                                  "result['evicted'] == self._evicted"),
+             ("size-is-total-live-entries", "result['size'] == len(%s._d) + len(%s._d)" % (PA, PB)),
+             ("pure", "same_omap(%s._d, old(%s._d)) and same_omap(%s._d, old(%s._d))" % (PA, PA, PB, PB)), counters_same()],
+    raises="none",
+)
+
+# requested namespace does not exist yet: it is created with the manager's capacity / ttl / clock
+R.dictrec("NsMapB", {"ns:b": "_NamespaceCache"})
+R.objtype("CacheMgrT1", {"_max": "int", "_ttl": "int", "_time": "ClockFn", "_ns": "NsMapB",
+                         "_hits": "int", "_misses": "int", "_evicted": "int"},
+          cls=("clematis/engine/cache.py", "CacheManager"))
+PN = "self._ns['ns:new']"
+R.contract(
+    CM + "_ns_obj", "C15", callee=False,
+    types={"self": "CacheMgrT1", "namespace": "='ns:new'"},
+    ensures=[("created-empty-with-manager-config",
+              "len(result._d) == 0 and result._max == self._max and result._ttl == self._ttl"),
+             ("registered", "len(self._ns) == 2 and len(%s._d) == 0 and %s._max == self._max" % (PN, PN)),
+             ("inv-established", "implies(self._max >= 0, wf_nscache(result))"),
+             OTHER_UNTOUCHED],
+    raises="none",
+)
+R.contract(
+    CM + "get", "C15", name="CacheManager.get[new namespace]", callee=False,
+    types={"self": "CacheMgrT1", "namespace": "='ns:new'", "key": "Un[K]"},
+    returns="Tuple[bool, Optional[Un[V]]]",
+    ghost=GHOST_NOW,
+    requires=[("max-nonneg (validator)", "self._max >= 0")],
+    ensures=[("miss", "result[0] == False and is_none(result[1])"),
+             ("counted-as-miss", "self._misses == old(self._misses) + 1 and self._hits == old(self._hits) and "
+                                 "self._evicted == old(self._evicted)"),
+             ("namespace-created-empty", "len(%s._d) == 0 and wf_nscache(%s)" % (PN, PN)), OTHER_UNTOUCHED],
+    raises="none",
+)
+R.contract(
+    CM + "set", "C15", name="CacheManager.set[new namespace]", callee=False,
+    types={"self": "CacheMgrT1", "namespace": "='ns:new'", "key": "Un[K]", "value": "Un[V]"},
+    ghost=GHOST_NOW,
+    requires=[("max-nonneg (validator)", "self._max >= 0")],
+    ensures=[("stored-unless-zero-cap", "len(%s._d) == ite(self._max > 0, 1, 0) and "
+                                        "implies(self._max > 0, key in %s._d and %s._d[key].ts == now and "
+                                        "%s._d[key].value == value)" % (PN, PN, PN, PN)),
+             ("evicted-counter-exact", "self._evicted == old(self._evicted) + ite(self._max == 0, 1, 0) and "
+                                       "self._hits == old(self._hits) and self._misses == old(self._misses)"),
+             ("inv-established", "wf_nscache(%s)" % PN), OTHER_UNTOUCHED],
+    raises="none",
+)
+R.contract(
+    CM + "__init__", "C15",
+    types={"self": "CacheMgrT1", "max_entries": "int", "ttl_sec": "int", "time_fn": "ClockFn"},
+    ensures=[("starts-empty-zero-counters", "len(self._ns) == 0 and self._hits == 0 and self._misses == 0 and self._evicted == 0"),
+             ("config-stored", "self._max == max_entries and self._ttl == ttl_sec")],
+    raises="none",
+)
+
+
+# ------------------------------------------------------------------ ThreadSafeCache / ThreadSafeBytesCache (Engine F)
+# Lock discipline, decided on the AST of the class as it is on disk:
+#   * the instance state is exactly (`_inner`, `_lock`) (`__slots__`), both bound only in `__init__`, `_lock` defaults
+#     to a re-entrant `threading.RLock()`;
+#   * every other method body is exactly one `with self._lock:` block (docstring aside), `self._inner` is referenced
+#     only inside it, nothing lazy (lambda / generator / nested def / yield) can carry the reference out of the block,
+#     and `items` returns a `list(...)` snapshot rather than a live view.
+# Trusted (A-LOCK): RLock gives mutual exclusion, so every concurrent history of wrapper calls is equivalent to a
+# sequential one; the sequential contracts of the wrapped cache (LRUBytes.* in c15_lru.py, LRUCache.* above) then
+# give "no lost update / internally consistent".  Real interleavings are not explored by this verifier.
+def _strip_doc(body):
+    if body and isinstance(body[0], ast.Expr) and isinstance(body[0].value, ast.Constant) and isinstance(body[0].value.value, str):
+        return body[1:]
+    return body
+
+
+def _self_attr_refs(node, attr):
+    return [n for n in ast.walk(node) if isinstance(n, ast.Attribute) and n.attr == attr
+            and isinstance(n.value, ast.Name) and n.value.id == "self"]
+
+
+def lock_discipline(expected_methods):
+    def fn(cl, mod, cls, func):
+        out = []
+        base = cl["name"]
+        if cls is None:
+            return [fresult(base, "error", "anchor lost: %s is not a method" % cl["key"])]
+        # --- class shape
+        slots = cls.attrs.get("__slots__")
+        got_slots = ast.unparse(slots) if slots is not None else None
+        ok = got_slots == "('_inner', '_lock')"
+        out.append(fresult(base + "/state-is-inner-and-lock-only", "proved" if ok else "failed",
+                           "" if ok else "__slots__ of %s is %s, expected ('_inner', '_lock')" % (cls.name, got_slots)))
+        names = sorted(cls.methods)
+        ok = names == sorted(expected_methods)
+        out.append(fresult(base + "/method-set", "proved" if ok else "failed",
+                           "" if ok else "methods of %s changed: %s (expected %s); every method needs a lock clause" % (
+                               cls.name, names, sorted(expected_methods))))
+        # --- __init__ binds the two slots, lock defaults to a re-entrant lock
+        init = cls.methods.get("__init__")
+        binds = {}
+        if init is not None:
+            for n in ast.walk(init):
+                if isinstance(n, ast.Assign) and len(n.targets) == 1 and isinstance(n.targets[0], ast.Attribute) \
+                        and isinstance(n.targets[0].value, ast.Name) and n.targets[0].value.id == "self":
+                    binds.setdefault(n.targets[0].attr, []).append(ast.unparse(n.value))
+        ok = binds == {"_inner": ["inner"], "_lock": ["lock or threading.RLock()"]}
+        out.append(fresult(base + "/init-binds-inner-and-reentrant-lock", "proved" if ok else "failed",
+                           "" if ok else "__init__ of %s binds %s" % (cls.name, binds)))
+        # --- per method
+        for mname in names:
+            if mname == "__init__":
+                continue
+            m = cls.methods[mname]
+            pre = "%s/%s" % (base, mname)
+            body = _strip_doc(m.body)
+            one_with = (len(body) == 1 and isinstance(body[0], ast.With) and len(body[0].items) == 1
+                        and ast.unparse(body[0].items[0].context_expr) == "self._lock"
+                        and body[0].items[0].optional_vars is None)
+            out.append(fresult(pre + "/body-is-one-with-lock-block", "proved" if one_with else "failed",
+                               "" if one_with else "body of %s.%s (line %d) is not exactly `with self._lock:`: %s" % (
+                                   cls.name, mname, m.lineno, [ast.unparse(s).split("\n")[0][:50] for s in body])))
+            # references of self._inner outside any `with self._lock:` block
+            inside = set()
+            for w in ast.walk(m):
+                if isinstance(w, ast.With) and any(ast.unparse(i.context_expr) == "self._lock" for i in w.items):
+                    for st in w.body:
+                        for n in ast.walk(st):
+                            inside.add(id(n))
+            refs = _self_attr_refs(m, "_inner")
+            outside = [n.lineno for n in refs if id(n) not in inside]
+            ok = bool(refs) and not outside
+            out.append(fresult(pre + "/inner-only-under-lock", "proved" if ok else "failed",
+                               "" if ok else ("self._inner referenced outside the lock at lines %s" % outside if outside
+                                              else "self._inner is never used in %s.%s" % (cls.name, mname))))
+            lazy = [type(n).__name__ + "@L%d" % n.lineno for n in ast.walk(m)
+                    if isinstance(n, (ast.Lambda, ast.GeneratorExp, ast.Yield, ast.YieldFrom, ast.FunctionDef, ast.AsyncFunctionDef))
+                    and n is not m]
+            stores = [n.lineno for n in ast.walk(m) if isinstance(n, ast.Attribute) and isinstance(n.ctx, (ast.Store, ast.Del))
+                      and isinstance(n.value, ast.Name) and n.value.id == "self"]
+            ok = not lazy and not stores
+            out.append(fresult(pre + "/no-escape-of-inner-access", "proved" if ok else "failed",
+                               "" if ok else "lazy constructs %s / rebinding of self attributes at lines %s" % (lazy, stores)))
+            if mname == "items":
+                rets = [n for n in ast.walk(m) if isinstance(n, ast.Return)]
+                ok = bool(rets) and all(isinstance(r.value, ast.Call) and isinstance(r.value.func, ast.Name)
+                                        and r.value.func.id == "list" for r in rets)
+                out.append(fresult(pre + "/returns-snapshot-list", "proved" if ok else "failed",
+                                   "" if ok else "items() must return list(...) built under the lock, found %s" % [
+                                       ast.unparse(r)[:60] for r in rets]))
+        return out
+    return fn
+
+
+# ------------------------------------------------------------------ merge_caches_deterministic
+# Model: the two order-key callables are arbitrary *pure* functions (uninterpreted `wkey`, `kord`, integer valued —
+# any totally ordered key type behaves the same); a worker cache is its finite content `Dict[K, V]` whose `items()`
+# lists every key once in an unspecified order (that is all the merge may rely on); the target is a faithful,
+# non-evicting map (ghost `tmap`) reached only through `in` / `get` / `put`.  Ghost logs: `visited` (worker entries in
+# visit order, recorded right after `kvs = list(wc.items())`), `marks` (number of membership queries made before
+# each worker), `queries` ((visit index, key) of every `k in target` test, in call order).
+R.untype("W")
+R.uf("wkey", ["Un[W]"], "int")
+R.uf("kord", ["Un[K]"], "int")
+R.funtype("TgtContains", params=["k"], returns="bool", ensures=[("reads-target", "result == (k in tmap)")],
+          effects_before=["queries.append((len(visited) - 1, k))"])
+R.funtype("TgtGet", params=["k"], returns="Optional[Un[V]]",
+          ensures=[("reads-target", "implies(k in tmap, result == tmap[k])")])
+R.funtype("TgtPut", params=["k", "v"], effects=["tmap[k] = v"])
+R.objtype("MergeTarget", {"get": "TgtGet", "put": "TgtPut", "__contains__": "TgtContains"})
+WCS = "List[Tuple[Un[W], Dict[Un[K], Un[V]]]]"
+MERGE_GHOST = {"tmap": ("Dict[Un[K], Un[V]]", "any"), "queries": ("List[Tuple[int, Un[K]]]", "empty"),
+               "visited": (WCS, "empty"), "marks": ("List[int]", "empty")}
+SEG_END = "ite(a + 1 < len(marks), marks[a + 1], len(queries))"
+
+R.contract(
+    CACHE + "merge_caches_deterministic", "C15",
+    types={"target": "MergeTarget", "worker_caches": WCS, "worker_order_key": "=wkey", "key_order_key": "=kord",
+           "on_conflict": "str"},
+    ghost=MERGE_GHOST,
+    raises={"AssertionError": "on_conflict == 'assert_equal'"},
+    ensures=[
+        # --- visit order
+        ("visits-every-worker-once",
+         "len(visited) == len(worker_caches) and "
+         "forall(a, 0 <= a < len(visited), exists(i, 0 <= i < len(worker_caches), visited[a] == worker_caches[i])) and "
+         "forall(i, 0 <= i < len(worker_caches), exists(a, 0 <= a < len(visited), visited[a] == worker_caches[i]))"),
+        ("workers-in-sorted-order-key-order",
+         "forall2(a, b, 0 <= a and a < b and b < len(visited), wkey(visited[a][0]) <= wkey(visited[b][0]))"),
+        ("keys-in-sorted-key-order-within-worker",
+         "forall2(p, q, 0 <= p and p < q and q < len(queries), queries[p][0] <= queries[q][0] and "
+         " implies(queries[p][0] == queries[q][0], kord(queries[p][1]) <= kord(queries[q][1])))"),
+        ("each-worker-key-tested-exactly-once",
+         "len(marks) == len(visited) and "
+         "forall(a, 0 <= a < len(marks), marks[a] + len(visited[a][1]) == " + SEG_END + ") and "
+         "forall(q, 0 <= q < len(queries), 0 <= queries[q][0] and queries[q][0] < len(visited) and "
+         "  marks[queries[q][0]] <= q and queries[q][1] in visited[queries[q][0]][1]) and "
+         "forall2(p, q, 0 <= p and p < q and q < len(queries), queries[p] != queries[q])"),
+        # --- result
+        ("first-wins-never-overwrites",
+         "forall((k, 'Un[K]'), old(k in tmap), k in tmap and tmap[k] == old(tmap)[k])"),
+        ("result-contains-every-worker-key",
+         "forall(a, 0 <= a < len(visited), forall((k, 'Un[K]'), k in visited[a][1], k in tmap))"),
+        ("nothing-else-added/new-key-takes-first-worker-in-order",
+         "forall((k, 'Un[K]'), k in tmap and not old(k in tmap), "
+         " exists(a, 0 <= a < len(visited), k in visited[a][1] and tmap[k] == visited[a][1][k] and "
+         "   forall(b, 0 <= b < a, not (k in visited[b][1]))))"),
+    ],
+    asserts={"kvs": ["ghost:visited.append((_, wc))", "ghost:marks.append(len(queries))"]},
+    loops={
+        0: {"modifies": ["visited", "marks"], "index": "_w", "iter": "_S", "inv": [
+            "len(visited) == _w and len(marks) == _w",
+            "forall(a, 0 <= a < _w, visited[a] == _S[a])",
+            "forall(a, 0 <= a < len(marks), 0 <= marks[a] and marks[a] <= len(queries) and "
+            " marks[a] + len(visited[a][1]) == " + SEG_END + ")",
+            "forall(q, 0 <= q < len(queries), 0 <= queries[q][0] and queries[q][0] < _w and "
+            " marks[queries[q][0]] <= q and queries[q][1] in visited[queries[q][0]][1])",
+            "forall2(p, q, 0 <= p and p < q and q < len(queries), queries[p][0] <= queries[q][0] and "
+            " queries[p] != queries[q] and "
+            " implies(queries[p][0] == queries[q][0], kord(queries[p][1]) <= kord(queries[q][1])))",
+            "forall((k, 'Un[K]'), old(k in tmap), k in tmap and tmap[k] == old(tmap)[k])",
+            "forall(a, 0 <= a < _w, forall((k, 'Un[K]'), k in visited[a][1], k in tmap))",
+            "forall((k, 'Un[K]'), k in tmap and not old(k in tmap), "
+            " exists(a, 0 <= a < _w, k in visited[a][1] and tmap[k] == visited[a][1][k] and "
+            "   forall(b, 0 <= b < a, not (k in visited[b][1]))))",
+        ]},
+        1: {"inv": [
+            # facts about the sorted snapshot of this worker (established once at loop entry)
+            "len(_iter) == len(wc)",
+            "forall(j, 0 <= j < len(_iter), _iter[j][0] in wc and _iter[j][1] == wc[_iter[j][0]])",
+            "forall2(i, j, 0 <= i and i < j and j < len(_iter), kord(_iter[i][0]) <= kord(_iter[j][0]) and _iter[i][0] != _iter[j][0])",
+            "forall((k, 'Un[K]'), k in wc, exists(j, 0 <= j < len(_iter), _iter[j][0] == k))",
+            # log of membership tests
+            "len(queries) == len(pre_loop(queries)) + _i",
+            "forall(q, 0 <= q < len(pre_loop(queries)), queries[q] == pre_loop(queries)[q])",
+            "forall(q, len(pre_loop(queries)) <= q < len(queries), queries[q][0] == len(visited) - 1 and "
+            " queries[q][1] == _iter[q - len(pre_loop(queries))][0])",
+            # target content
+            "forall((k, 'Un[K]'), k in pre_loop(tmap), k in tmap and tmap[k] == pre_loop(tmap)[k])",
+            "forall(j, 0 <= j < _i, _iter[j][0] in tmap)",
+            "forall((k, 'Un[K]'), k in tmap and not (k in pre_loop(tmap)), k in wc and tmap[k] == wc[k])",
+        ]},
+    },
+    locals={"kvs": "List[Tuple[Un[K], Un[V]]]"},
+)
+
+for _cls in ("ThreadSafeCache", "ThreadSafeBytesCache"):
+    R.fclause("C15", "lock-discipline/%s" % _cls, "custom", CACHE + _cls + ".__init__",
+              fn=lock_discipline(["__init__", "get", "put", "__contains__", "items"]))
 
